@@ -1,6 +1,7 @@
 package c18
 
 import (
+	"crypto/sha256"
 	"bufio"
 	"bytes"
 	"crypto/ed25519"
@@ -318,6 +319,49 @@ func Transcript(path string) error {
 		}
 		for _, e := range ex {
 			fmt.Fprintf(w, "%s|%s|%s\n", g.Name, e.Name, hex.EncodeToString(e.Enc))
+		}
+	}
+	// families of Pick streams and hashed messages, one digest per block of 100: the rare candidate shapes
+	// (x >= p, rejected candidates, coordinates with leading zeros) must be handled identically by every build
+	for _, g := range groups.All() {
+		fam := func(kind string, n int, f func(i int) (kyber.Point, bool)) {
+			for blk := 0; blk < n; blk += 100 {
+				h := sha256.New()
+				for i := blk; i < blk+100 && i < n; i++ {
+					var line string
+					func() {
+						defer func() {
+							if r := recover(); r != nil {
+								line = fmt.Sprintf("panic: %v", r)
+							}
+						}()
+						p, ok := f(i)
+						if !ok {
+							line = "unsupported"
+							return
+						}
+						b, err := p.MarshalBinary()
+						line = fmt.Sprintf("%x %v", b, err)
+					}()
+					h.Write([]byte(line + "\n"))
+				}
+				fmt.Fprintf(w, "%s|%s family [%d,%d)|%x\n", g.Name, kind, blk, blk+100, h.Sum(nil)[:16])
+			}
+		}
+		n := 1500
+		if g.Slow || g.Kind == "G2" || g.Kind == "GT" {
+			n = 200
+		}
+		if g.Pick {
+			fam("Pick", n, func(i int) (kyber.Point, bool) {
+				return g.Point().Pick(alpha.Stream(fmt.Sprintf("c18-pick-family-%d", i))), true
+			})
+		}
+		if hp, ok := g.Point().(kyber.HashablePoint); ok {
+			_ = hp
+			fam("Hash", n, func(i int) (kyber.Point, bool) {
+				return g.Point().(kyber.HashablePoint).Hash([]byte(fmt.Sprintf("message %d", i))), true
+			})
 		}
 	}
 	for _, ps := range groups.PairingSuites() {
